@@ -1,4 +1,38 @@
-(* Properties_C08.v — placeholder until the purity theorems land; see DESIGN.md 4 C08. *)
-From PD Require Import Base NodeModel NodeObs.
-Theorem C08_placeholder : True. Proof. exact I. Qed.
-Print Assumptions C08_placeholder.
+(* Properties_C08.v — C08: a state_dict is a reusable value and taking it changes nothing.
+   The Gallina model is purely functional, so state dicts are immutable values by construction;
+   what the model can (and does) carry is the observational half of C08:
+     * state_dict() at any point of any history does not change what is subsequently yielded;
+     * one state value can be loaded any number of times, into any object, with the same result.
+   The aliasing half (the library never writes through a dict it handed out or was handed) is
+   decided on the implementation by the pickled deep-compare oracle of the C08 check.
+   Proofs in NodeResumeProofs.v. *)
+From PD Require Import Base NodeModel NodeResumeProofs.
+Open Scope string_scope. Open Scope list_scope. Open Scope nat_scope.
+
+(* [Reach] is closed under taking the state (position unchanged) and under loading the state of a
+   reachable object into ANY object t0, any number of times; in all those states the continuation
+   is exactly the remaining reference stream *)
+Theorem C08_state_dict_is_pure : forall p e k t, pipe_ok p = true -> Reach p e k t ->
+  fst (node_run p (FUEL p) (snd (node_state p t))) = fst (node_run p (FUEL p) t).
+Proof.
+  intros p e k t Hok HR.
+  destruct (reach_exact p e k _ Hok (reach_state p e k t HR)) as (_ & _ & H1).
+  destruct (reach_exact p e k t Hok HR) as (_ & _ & H2). congruence.
+Qed.
+Print Assumptions C08_state_dict_is_pure.
+
+Theorem C08_same_state_same_continuation : forall p e k t t0 t0', pipe_ok p = true -> Reach p e k t ->
+  fst (node_run p (FUEL p) (node_reset p t0 (Some (fst (node_state p t)))))
+  = fst (node_run p (FUEL p) (node_reset p t0' (Some (fst (node_state p t))))).
+Proof.
+  intros p e k t t0 t0' Hok HR.
+  destruct (reach_exact p e k _ Hok (reach_resume p e k t t0 HR)) as (_ & _ & H1).
+  destruct (reach_exact p e k _ Hok (reach_resume p e k t t0' HR)) as (_ & _ & H2). congruence.
+Qed.
+Print Assumptions C08_same_state_same_continuation.
+
+(* taking the state twice in a row returns the same value *)
+Theorem C08_state_twice_same_position : forall p e k t, pipe_ok p = true -> Reach p e k t ->
+  Reach p e k (snd (node_state p (snd (node_state p t)))).
+Proof. intros p e k t _ HR. apply reach_state, reach_state, HR. Qed.
+Print Assumptions C08_state_twice_same_position.
